@@ -22,6 +22,8 @@ from pathlib import Path
 
 ROOT = Path(__file__).resolve().parents[1]
 LEAN = Path(os.environ.get('VERIF_LEAN_DIR') or (ROOT / 'lean'))
+# where evidence/ and replays/ are written (a scratch directory when a check is tried on a mutated copy of the repository)
+OUT = Path(os.environ.get('VERIF_OUT_DIR') or ROOT)
 REPO = Path(os.environ.get('VERIF_REPO', '/repo'))
 PY = os.environ.get('VERIF_PYTHON', '/venv/bin/python')
 GUARD = 'PYTABLEAUX_VERIF'
@@ -122,8 +124,8 @@ class Ctx:
         if any(v['key'] == key for v in self.violations):
             return
         self._nreplay += 1
-        path = ROOT / 'replays' / f'{self.prop}-{self.seed}-{self._nreplay}.json'
-        path.parent.mkdir(exist_ok=True)
+        path = OUT / 'replays' / f'{self.prop}-{self.seed}-{self._nreplay}.json'
+        path.parent.mkdir(exist_ok=True, parents=True)
         body = dict(property=self.prop, key=key, what=what, seed=self.seed, tier=self.tier,
                     found_failing_input=found_input, replay=replay or {})
         path.write_text(json.dumps(body, indent=1, default=str))
@@ -139,11 +141,11 @@ class Ctx:
             coverage=cov, assumptions=self.assumptions, wall_s=round(wall, 2),
             violations=len(self.violations),
             known_findings=sorted(self.known_hit), notes=self.notes)
-        (ROOT / 'evidence').mkdir(exist_ok=True)
-        (ROOT / 'evidence' / f'{self.prop}.json').write_text(json.dumps(ev, indent=1, default=str))
+        (OUT / 'evidence').mkdir(exist_ok=True, parents=True)
+        (OUT / 'evidence' / f'{self.prop}.json').write_text(json.dumps(ev, indent=1, default=str))
         for k, what in sorted(self.known_hit.items()):
             print(f'KNOWN-FINDING: property={self.prop} {k} :: {what}')
-        for v in self.violations:
+        for v in sorted(self.violations, key=lambda v: not v['found_input']):
             tail = '' if v['found_input'] else ' no-failing-input-found'
             print(f"# {v['key']}: {v['what']}")
             print(f"VIOLATION property={self.prop} replay={v['path']}{tail}")
